@@ -144,6 +144,24 @@ def harness_build():
             raise BuildError("harness-build", out[-6000:])
 
 
+SK_TARGET = os.path.join(HARNESS, "target-sk")
+SK_BIN = os.path.join(SK_TARGET, "debug", "sk")
+
+
+def build_sk():
+    """the real `sk` binary for the CLI-level streams, rebuilt from /repo's working tree.  Dev profile with debug
+    assertions OFF (a plain debug build dies in clap's own debug assertions before reading input), overflow checks on,
+    own target dir: ~10 s cold and a few seconds after a source change (the LTO release build takes 30-40 s)."""
+    env = dict(ENV, CARGO_PROFILE_DEV_DEBUG_ASSERTIONS="false", CARGO_PROFILE_DEV_OPT_LEVEL="1", CARGO_PROFILE_DEV_DEBUG="0")
+    with Lock("cargo-sk"):
+        rc, out = sh(["cargo", "build", "--offline", "--bin", "sk", "--manifest-path", os.path.join(REPO, "Cargo.toml"),
+                      "--target-dir", SK_TARGET], env=env)
+    if rc != 0:
+        raise BuildError("sk-build", out[-4000:])
+    ENV["VERIF_SK_BIN"] = SK_BIN
+    return SK_BIN
+
+
 def run_lines(binary, lines, timeout=900, cwd=None):
     if not lines:
         return []
@@ -335,6 +353,13 @@ def run_property(mod, tier, seed, replay=None):
     harness_err = None
     try:
         harness_build()
+        import importlib as _il
+        needs = getattr(mod, "NEEDS_SK", False) or any(
+            getattr(_il.import_module("vlib.props." + n), "NEEDS_SK", False) for n in getattr(mod, "SUBMODULES", []))
+        if needs == "thorough":
+            needs = tier == "thorough"
+        if needs:
+            build_sk()
     except BuildError as e:
         harness_err = e
 
